@@ -117,6 +117,44 @@ def perm_family(rng, n):
     return graphs.rand_perm(rng, n)
 
 
+def src_bit(st, b):
+    """Python twin of Stmt.srcBit: which source bit feeds output bit b of one statement (None = none)."""
+    _s, _d, mask, shl, shr, post = st
+    if shl > 0:
+        j = b - shl if shl <= b else None
+    elif shr > 0:
+        j = b + shr if b + shr < 64 else 63
+    else:
+        j = b
+    if j is None:
+        return None
+    if (mask >> j) & 1 and (post is None or (post >> b) & 1):
+        return j
+    return None
+
+
+def witness_inputs(prog, p, w, n, L):
+    """When the checker rejects a parsed routine: inputs on which the routine (if the parse is faithful) must differ
+    from the bit permutation — one word pattern per wrong contributor / missing contributor."""
+    out = []
+    for d in range(L):
+        for b in range(64):
+            t = d * 64 + b
+            cs = {(st[0], src_bit(st, b)) for st in prog if st[1] == d and src_bit(st, b) is not None}
+            want = set()
+            if t < n * w:
+                sp = p[t // w] * w + t % w
+                want = {(sp // 64, sp % 64)}
+            for word, bit in (cs ^ want):
+                x = [0] * L
+                if word < L:
+                    x[word] = 1 << bit
+                    out.append(x)
+            if len(out) > 12:
+                return out
+    return out
+
+
 def check_routine(ck: Check, w, n, p, one_d):
     drv = ck.driver()
     enc = StringEncoder(code_width=w, n=n)
@@ -142,8 +180,10 @@ def check_routine(ck: Check, w, n, p, one_d):
         comp = drv.ask(f"prog.compile {w} {n} ; {pl}")
         if comp != " | ".join(stmt_line(s) for s in prog):
             ck.correspondence_break("generated routine differs from the model compiler's output", {"case": case, "model": comp[:400], "impl": sl[:400]})
-    # execute the real routine on structured + random words against the bit-level specification
-    for x in structured_words(ck.rng, L, n * w):
+    # execute the real routine on structured + random words against the bit-level specification;
+    # when the certificate failed, first on the witnesses the rejected output bits imply (targeted search)
+    targeted = witness_inputs(prog, p, w, n, L) if (prog is not None and not certified) else []
+    for x in targeted + structured_words(ck.rng, L, n * w):
         xs = [S64(v) for v in x]
         if one_d:
             y = [int(f(np.array([xs[0]], dtype=np.int64))[0])]
